@@ -30,6 +30,10 @@ class Prop(PropBase):
             cs.append(Case("D 1 %d" % b, sweep="lookup-1byte"))
         for b in range(256):
             cs.append(Case("D 2 37 %d" % b, sweep="lookup-ext"))
+        # the same two sweeps with the lookup made by the COMPILER (the function is constexpr; `_ete` uses it in constant evaluation)
+        for b in range(256):
+            cs.append(Case("d 1 %d" % b, sweep="lookup-1byte-constant-evaluation"))
+            cs.append(Case("d 2 37 %d" % b, sweep="lookup-ext-constant-evaluation"))
         if tier == "thorough":
             for a in range(256):
                 for b in range(256):
@@ -60,6 +64,17 @@ class Prop(PropBase):
                     b = " ".join(map(str, g2 + tg.DEFAULT_ATTR))
                     cs.append(Case("T %d ; we %s ; we %s ; we %s" % (bits, a, b, a), sweep="charset-pairs-on-the-wire",
                                    cfgs=[cfgs[(c1 * 19 + c2) % len(cfgs)]]))
+        # ... with an erase between the two (an erase resets the rendition, never the designated set)
+        for c1 in tg.CHARSETS:
+            for c2 in tg.CHARSETS:
+                for kind in range(6):
+                    bits = 16 if (c1 + c2 + kind) % 2 else 0
+                    g1 = [c1] + (tg.utf8_bytes(0xE9) if c1 == 18 else [0x61, 0, 0])
+                    g2 = [c2] + (tg.utf8_bytes(0x20AC) if c2 == 18 else [0x62, 0, 0])
+                    a = " ".join(map(str, g1 + tg.DEFAULT_ATTR))
+                    b = " ".join(map(str, g2 + tg.DEFAULT_ATTR))
+                    cs.append(Case("T %d ; we %s ; er %d ; we %s ; we %s" % (bits, a, kind, b, a), sweep="charset-pairs-around-an-erase",
+                                   cfgs=[cfgs[(c1 * 19 + c2 + kind) % len(cfgs)]]))
         # ... and every ordered TRIPLE (a designation that is skipped because of where the terminal came from two sets ago)
         for c1 in tg.CHARSETS:
             for c2 in tg.CHARSETS:
